@@ -4,7 +4,7 @@ fails with; the pinned test-suite's stable-pass set still passes with the change
 import json, os, subprocess, sys, tempfile, xml.etree.ElementTree as ET
 sd = os.path.abspath(sys.argv[1])
 sid = os.path.basename(sd).split("_")[0]
-wt = f"/tmp/wt/{sid}"
+wt = os.environ.get("SEED_WT") or f"/tmp/wt/{sid}"
 def sh(cmd, **kw):
     return subprocess.run(cmd, shell=True, capture_output=True, text=True, **kw)
 assert sh(f"git -C {wt} status --short").stdout.strip() == "", "worktree not clean"
